@@ -237,9 +237,13 @@ SettleSet(S, P) ==
 SettleAll(S) == SettleSet(S, {p \in E \X Ids : S.wb[p[1]][p[2]].on \/ S.rb[p[1]][p[2]].on})
 
 \* Stream.close(true): closeWrite(false), close(closed), enqueue close, deregister; blocked calls return
+\* (closeWrite runs first and waits for the writer, so a blocked Write returns ErrWriteClosed; a blocked Read
+\* then returns net.ErrClosed)
 LocalClose(S, e, s) ==
   IF S.ss[e][s].cl THEN S
-  ELSE Settle1(EnqClose([S EXCEPT !.ss[e][s].cw = TRUE, !.ss[e][s].cl = TRUE, !.ss[e][s].reg = FALSE], e, s), e, s)
+  ELSE LET A == WRun([S EXCEPT !.ss[e][s].cw = TRUE], e, s)
+           B == EnqClose([A EXCEPT !.ss[e][s].cl = TRUE, !.ss[e][s].reg = FALSE], e, s)
+       IN RRun(B, e, s)
 
 \* OpenStream, first half: register, take a write buffer, encode the open message
 CanOpen(S, e) == S.nextOut[e] <= MaxId
